@@ -279,6 +279,52 @@ def braid_case(r):
   return d, qs
 
 
+def blocker_braid_case(r):
+  """A braid (shortest path with several overlapping detours, conditions on inner nodes) whose three
+  goal variables are each re-bound at inner nodes: the pending goal set decides the blocked set, hence
+  the shortest path, hence which conditional node FindNodeBackwards takes for an articulation point.
+  All subsets of the three goals are asked at the start node (clause iv on acyclic+cond graphs)."""
+  k = r.randint(3, 5)
+  names = ["a%d" % i for i in range(k + 1)]
+  inc = {n: [] for n in names}
+  for i in range(k):
+    inc["a%d" % i].append("a%d" % (i + 1))
+  for t in range(r.randint(2, 5)):
+    i = r.randrange(0, k - 1)
+    j = r.randint(i + 2, k)
+    ln = (j - i) + r.randint(0, 1)
+    prev = "a%d" % i
+    for u in range(ln - 1):
+      x = "x%d_%d" % (t, u)
+      inc[x] = []
+      inc[prev].append(x) if r.random() < 0.5 else inc[prev].insert(0, x)
+      prev = x
+    inc[prev].append("a%d" % j) if r.random() < 0.5 else inc[prev].insert(0, "a%d" % j)
+  order = list(inc)
+  idx = {n: i for i, n in enumerate(order)}
+  nodes = [{"inc": [idx[m] for m in inc[n]], "cond": None} for n in order]
+  fin = idx["a%d" % k]; st = idx["a0"]
+  inner = [i for i in range(len(order)) if i not in (fin, st)]
+  bindings = []
+  goals = []
+  for v in range(3):
+    goals.append(len(bindings))
+    bindings.append({"var": v, "origins": [[fin, [[]]]]})
+    for _ in range(r.choice([0, 1, 1, 2])):
+      bindings.append({"var": v, "origins": [[r.choice(inner), [[]]]]})
+  unsat = len(bindings); bindings.append({"var": 3, "origins": []})
+  sat = len(bindings); bindings.append({"var": 4, "origins": [[fin, [[]]]]})
+  for i in inner:
+    if r.random() < 0.35:
+      nodes[i]["cond"] = unsat if r.random() < 0.75 else sat
+  d = G.normalise({"nodes": nodes, "bindings": bindings})
+  qs = []
+  for m in (3, 2, 1):
+    for sub in itertools.combinations(goals, m):
+      qs.append(("H", st, list(sub)))
+  return d, qs
+
+
 def random_cases(r, tier_scale):
   cases = []
   def add(prefix, count, max_nodes, max_vars, max_bind, nsets):
@@ -297,6 +343,9 @@ def random_cases(r, tier_scale):
   for i in range(500 * tier_scale):
     d, qs = braid_case(r)
     cases.append(("braid%d" % i, d, qs, "fresh" if i % 3 == 2 else "shared"))
+  for i in range(400 * tier_scale):
+    d, qs = blocker_braid_case(r)
+    cases.append(("bbraid%d" % i, d, qs, "fresh" if i % 2 else "shared"))
   return cases
 
 
@@ -518,7 +567,8 @@ def run(res):
       "with 0..3 origins x 1..2 source sets of size 0..3, node conditions in 1/2 of the graphs; plus "
       "directed loop graphs carrying a source-set dependency cycle, conditions after the loop and goals "
       "with no / unreachable origins; and directed 'braid' graphs (a shortest path with overlapping "
-      "detours around conditional nodes); and typegraphs HARVESTED FROM REAL VM RUNS (small generated "
+      "detours around conditional nodes), the same with every goal variable re-bound at inner nodes and all "
+      "subsets of three goals asked; and typegraphs HARVESTED FROM REAL VM RUNS (small generated "
       "programs with branches/joins/conditional expressions analysed by pytype, final typegraph dumped "
       "through the public cfg API, IsVisible asked for every program-made binding at every node, answers "
       "of the live program compared with the rebuilt graph). Queries per graph: HasCombination on random nodes x goal sets of "
@@ -533,7 +583,8 @@ def run(res):
       "(used for membership/lookup only); State::Hash assumed injective on the states of one query (StateSet)",
       "Origin::source_sets iteration order (raw pointer order) is read back from the implementation and given "
       "to the model; an origin without any source set cannot be built from Python and is exercised in Coq only",
-      "CanHaveCombination is modelled as graph reachability (C09 proves the bit matrix equal to it)",
+      "CanHaveCombination: the model's graph-reachability test is PROVED equal to the C09 bit-matrix query "
+      "for graphs built by NewCFGNode/ConnectTo histories (Props/C07.v can_have_combination_uses_bit_matrix)",
       "metrics/logging side effects of the solver are not modelled",
       "extraction via ExtrOcamlBasic (bool/list/option/prod mapped to OCaml's), nat kept inductive",
       "generator, differ and oracle in harness/props/c07*.py"]
